@@ -218,6 +218,11 @@ pub fn create_approx_matrices(problem: &ApiProblem) -> Vec<Matrix> {
         return vec![];
     }
 
+    // NOTE: a speed which is not positive cannot be used for approximation, missing matrices are reported as E0002
+    if problem.fleet.profiles.iter().any(|profile| profile.speed.is_some_and(|speed| !(speed > 0.))) {
+        return vec![];
+    }
+
     // get each speed value once
     let speeds = problem
         .fleet
